@@ -35,7 +35,7 @@ MANIFEST_ENTRY = {
                "Proofs/C13/LexMax*.v): every Identifier, Whitespace, Annotation, LineAnnotation and Number token of a successful lex "
                "consists of exactly the character class the lexer uses and the input character after it cannot continue it; the one "
                "place where a digits-like number stops before a character it could take - a period - is characterised exactly "
-               "(`..` follows, or the previous token's type blocks floats). Likewise (C13_symbol_maximal, C13_backtick_identifier_forms, C13_subexpression_text / _whitespace): a Symbol token is `:` plus identifier characters not starting with `:` and cannot be continued; the three backtick identifier forms have exactly their shapes; a Subexpression token consists only of ASCII whitespace, has the exact shape head / blanks / closing break character and two (three after a leading CR) line-break characters - it need not contain two line feeds (`\\f\\r`: C13_subexpression_two_line_feeds_refuted, a clarification, confirmed on the Rust lexer). Quoted literals (C13_char_list_shape, C13_byte_list_shape, C13_literal_one_token_iff): every CharList / ByteList token of a successful lex is exactly two quotes (the empty literal) or q^n x body q^n with n >= 1, n <> 2, x not a quote, every quote run inside body shorter than n and body not ending in a quote - the opening run is maximal and the literal ends at the FIRST run of n quotes after it; such a text is one literal token iff that run condition holds; the n = 2 reading and 'closing run maximal' are refuted by witnesses (C13_two_quote_literal_refuted). Trusted: Coq kernel; the operator table translator tools/sync/tokens.py; extraction (ExtrOcamlBasic only); "
+               "(`..` follows, or the previous token's type blocks floats). Likewise (C13_symbol_maximal, C13_backtick_identifier_forms, C13_subexpression_text / _whitespace): a Symbol token is `:` plus identifier characters not starting with `:` and cannot be continued; the three backtick identifier forms have exactly their shapes; a Subexpression token consists only of ASCII whitespace, has the exact shape head / blanks / closing break character and two (three after a leading CR) line-break characters - it need not contain two line feeds (`\\f\\r`: C13_subexpression_two_line_feeds_refuted, a clarification, confirmed on the Rust lexer). Quoted literals (C13_char_list_shape, C13_byte_list_shape, C13_literal_one_token_iff): every CharList / ByteList token of a successful lex is exactly two quotes (the empty literal) or q^n x body q^n with n >= 1, n <> 2, x not a quote, every quote run inside body shorter than n and body not ending in a quote - the opening run is maximal and the literal ends at the FIRST run of n quotes after it; such a text is one literal token iff that run condition holds; the n = 2 reading and 'closing run maximal' are refuted by witnesses (C13_two_quote_literal_refuted). The direct oracle of the check evaluates these statements on the implementation's tokens too (clauses maximal-run and literal-shape, ASCII classification). Trusted: Coq kernel; the operator table translator tools/sync/tokens.py; extraction (ExtrOcamlBasic only); "
                "the Rust harness bin lex, ocaml/lex_driver.ml and the Python oracle; char::is_numeric / is_alphanumeric on "
                "non-ASCII code points are parameters of the model (theorems hold for every classification; the harness "
                "reports the real classification per case). Five defects were repaired in /repo (fix: commits, see "
@@ -229,6 +229,26 @@ def oracle(cps, toks):
                     bad.append(("longest-match", "token %d %r but the longer spelling %r is a prefix of the input there" % (
                         i, show(t[1]), show(list(sp)))))
                     break
+    # maximal runs (the statements of C13_identifier_maximal, C13_whitespace_maximal, C13_annotation_maximal,
+    # C13_number_maximal, C13_symbol_maximal evaluated on the implementation's tokens; ASCII only - the classification
+    # of other characters is a parameter of the theorems): the input character after such a token cannot continue it
+    def _alnum(c):
+        return 48 <= c <= 57 or 65 <= c <= 90 or 97 <= c <= 122
+    for i, t in enumerate(toks):
+        nxt = rest_after[i][0] if rest_after[i] else None
+        if nxt is None or nxt >= 128 or any(c >= 128 for c in t[1]):
+            continue
+        cont = None
+        if t[0] in ("Identifier", "Symbol"):
+            cont = _alnum(nxt) or nxt in (95, 58, 96)
+        elif t[0] == "Whitespace":
+            cont = nxt in (32, 9, 10)
+        elif t[0] == "Annotation":
+            cont = _alnum(nxt) or nxt == 95 or (t[1] == [64] and nxt == 64)
+        elif t[0] == "Number":
+            cont = _alnum(nxt) or nxt == 95 or (t[1][-1:] == [46] and nxt == 46)
+        if cont:
+            bad.append(("maximal-run", "token %d %s %r is followed by %r, which continues it" % (i, t[0], show(t[1]), show([nxt]))))
     # quoted literals end at the FIRST closing run of the opening length (the shape C13_char_list_shape proves of
     # the model): exactly two quotes, or q^n x body q^n with n != 2, x not a quote, every quote run inside body
     # shorter than n and body not ending in a quote
